@@ -606,6 +606,10 @@ def loops_progress(an, rep):
                     if info["base_key"] == "Iterator::next" or info["key"].endswith("as Iterator>::next"):
                         nexts.append((bb, t, info))
             if not nexts:
+                why = _len_counted_loop(b, header, blocks, ex)
+                if why:
+                    R.ok(sample={"fn": b.key, "loop_driven_by": why})
+                    continue
                 R.fail(b.key, "loop", "loop without an iterator driving it (cannot establish progress)",
                        mir.loc(b, header), {"call_path_from_root": path})
                 continue
@@ -637,6 +641,55 @@ def loops_progress(an, rep):
                 R.ok(sample={"fn": b.key, "loop_driven_by": [mir.short(i["targs"][0]["s"]) for _, _, i in nexts if i["targs"]]})
     R.floor("loops in decode-reachable code", n, 1)
     return R
+
+
+def _len_counted_loop(b, header, blocks, ex):
+    """`while v.len() < n { .. v.push(x) .. }` with a loop-invariant bounded n: the loop is left when the length reaches n and
+    every way round the loop pushes onto v, so it runs at most n times"""
+    exits = []
+    for bb in blocks:
+        t = b.blocks[bb]["term"]
+        if t["k"] == "switch":
+            tg = [x for _, x in t["targets"]] + [t["otherwise"]]
+            if any(x not in blocks for x in tg) and any(x in blocks for x in tg):
+                exits.append((bb, t))
+    for bb, t in exits:
+        c = mir.strip_refs(ex.operand(t["op"]))
+        if not (isinstance(c, tuple) and c[0] == "bin" and c[1] in ("Lt", "Gt", "Ne", "Le", "Ge")):
+            continue
+        l, r = (c[2], c[3]) if c[1] in ("Lt", "Ne", "Le") else (c[3], c[2])
+        ls = mir.strip_refs(l)
+        if not (ls[0] == "len" or (ls[0] == "call" and (ls[1] in guards.PURE_LEN or ls[1].endswith("::len")))):
+            continue
+        vec = guards.norm(ls[1] if ls[0] == "len" else ls[3][0])
+        bound = guards.rng(r)
+        if not bound or bound[1] > 65537:
+            continue
+        pushes = set()
+        for b2 in blocks:
+            t2 = b.blocks[b2]["term"]
+            if t2["k"] == "call":
+                info = mir.callee_info(t2["callee"])
+                if info["key"] in ("Vec<T, A>::push",) and guards.norm(ex.operand(t2["args"][0])) == vec:
+                    pushes.add(b2)
+        if not pushes:
+            continue
+        # every cycle through the header passes a push: without the push blocks the header cannot reach itself
+        succ = mir.succs(b)
+        seen, todo = set(), [x for x in succ[header] if x in blocks]
+        back = False
+        while todo:
+            x = todo.pop()
+            if x in seen or x in pushes or b.blocks[x].get("cleanup"):
+                continue
+            seen.add(x)
+            if x == header:
+                back = True
+                break
+            todo.extend(y for y in succ[x] if y in blocks)
+        if not back:
+            return "length of the vector it pushes onto, bounded by %d" % bound[1]
+    return None
 
 
 ACCEPTED_ITERS = ("core::array::iter::IntoIter<", "core::slice::iter::Iter<", "core::slice::iter::IterMut<", "alloc::vec::into_iter::IntoIter<",
